@@ -1,8 +1,10 @@
-/- Driver ops for GraphColoring.  Ops: graph_coloring.{step,state,judge,instance}; cfg = {"n": num_nodes} -/
+/- Driver ops for GraphColoring.  Ops: graph_coloring.{step,state,judge,instance,spec}; cfg = {"n": num_nodes} -/
 import JumanjiModel.Bridge.Json
 import JumanjiModel.Env.GraphColoring.Model
 import JumanjiModel.Env.GraphColoring.Bounds
 import JumanjiModel.Bridge.PuzzleBounds
+import JumanjiModel.Bridge.Spec
+import JumanjiModel.Env.GraphColoring.SpecLemmas
 open Lean Jb
 
 namespace Jb.GraphColoring
@@ -23,6 +25,9 @@ def jObs (o : Obs) : Json :=
 def getObs (j : Json) : Except String Obs := do
   pure { adj := ← fBoolGrid j "adj_matrix", colors := ← fInts j "colors",
          mask := ← fBools j "action_mask", cur := ← fInt j "current_node_index" }
+
+def jNValue (v : Sp.NValue) : Json := jList (fun (e : String × Sp.Arr) => jObj [("key", jStr e.1), ("value", SpecOps.jArr e.2)]) v
+def jNested (s : Sp.Nested) : Json := jList (fun (e : String × Sp.Leaf) => jObj [("key", jStr e.1), ("spec", SpecOps.jLeaf e.2)]) s
 
 /-- the state must have the configured size (never defaulted) -/
 def checkShape (n : Nat) (s : State) : Except String Unit := do
@@ -51,6 +56,12 @@ def opState : Op := fun j => do
   pure (jObj [("mask", jBools (validActions n s.cur s.adj s.colors)),
               ("legal", jBools ((List.range n).map (fun a => decide (legal n s a)))),
               ("obs", jObs (observe n s)),
+              -- wave 3: the L1 observation of the state (`obsOf`: cached mask) as spec-level arrays, whether the model's
+              -- `obsSpec n` accepts it, the invariant of the C01 theorems, and the timestep `reset` builds on this graph
+              ("nvalue", jNValue (toNValue (obsOf s))),
+              ("obs_in_spec", jBool ((obsSpec n).valid (toNValue (obsOf s)))),
+              ("spec_inv", jBool (decide (SpecInv n s))),
+              ("reset_ts", jTimeStep jObs (reset n s.adj).2),
               ("feasible", jBool (decide (Feasible n s) && decide (WF n s))),
               ("solution", jBool (decide (IsSolution n s))),
               ("cached_mask_ok", jBool (decide (Inv n s))),
@@ -84,8 +95,19 @@ def opBounds : Op := fun j => do
   let n ← fNat cfg "n"
   pure (jBoundsTable (obsBounds n))
 
+/-- {cfg: {n}} → the specs of the model (`obsSpec n`, `actionSpec n`, reward and discount spec) in the `speclib.leaf_json`
+    layout, and `generate_value()` of the action spec -/
+def opSpec : Op := fun j => do
+  let cfg ← field j "cfg"
+  let n ← fNat cfg "n"
+  pure (jObj [("observation_spec", jNested (obsSpec n)), ("action_spec", SpecOps.jLeaf (actionSpec n)),
+              ("reward_spec", SpecOps.jLeaf PzS.rewardSpec), ("discount_spec", SpecOps.jLeaf PzS.discountSpec),
+              ("action_spec_wf", jBool (actionSpec n).WF),
+              ("generate_value", SpecOps.jArr (actionSpec n).generate),
+              ("generate_value_legal", jBool ((actionSpec n).generate == actionArr 0 && decide (0 < n)))])
+
 def ops : List (String × Op) :=
-  [("graph_coloring.step", opStep), ("graph_coloring.state", opState),
+  [("graph_coloring.spec", opSpec), ("graph_coloring.step", opStep), ("graph_coloring.state", opState),
    ("graph_coloring.judge", opJudge), ("graph_coloring.instance", opInstance),
    ("graph_coloring.bounds", opBounds)]
 end Jb.GraphColoring
